@@ -274,6 +274,26 @@ class FilterScenario:
             return ("other", str(v), work)
         return ("raise", o.term[1], work)
 
+    def verdict_as_called(self, filename: str, carry: Optional[State] = None, line: int = 1) -> Tuple[str, Any, State]:
+        """the verdict a *caller* of default_code_filter gets: decorators such as functools.lru_cache are honoured, the
+        process state (cache tables) is carried from call to call"""
+        p = self.fi.positional_params()[0]
+        code = R("code", co_filename=K(filename), co_name=K("f"), co_firstlineno=K(line))
+        st = State()
+        if carry is not None:
+            st.heap, st._next = carry.heap, carry._next
+            for k, v in carry.env.items():
+                if k.startswith("__global__:"):
+                    st.env[k] = v
+        fake = ast.Call(func=ast.Name(id=self.fi.qualname, ctx=ast.Load()), args=[], keywords=[])
+        v = self.ri.inline_call(self.fi, fake, None, [code], {}, st)
+        if st.pending is not None:
+            return ("raise", st.pending, st)
+        fv = st.freeze(v)
+        if isinstance(fv, K) and isinstance(fv.v, bool):
+            return ("value", fv.v, st)
+        return ("other", str(fv), st)
+
     def lib_paths(self) -> Any:
         st = State()
         v = self.ri.interp.on_name("LIB_PATHS", st) if "LIB_PATHS" in self.mod.constants else None
